@@ -17,6 +17,11 @@ func staticCallee(c *ssa.CallCommon) *types.Func {
 	if c.IsInvoke() {
 		return c.Method
 	}
+	if fn := funcVarTarget(c.Value); fn != nil {
+		if o, ok := fn.Object().(*types.Func); ok {
+			return o
+		}
+	}
 	switch v := c.Value.(type) {
 	case *ssa.Function:
 		if o, ok := v.Object().(*types.Func); ok {
@@ -41,6 +46,9 @@ func staticCallee(c *ssa.CallCommon) *types.Func {
 func staticFn(c *ssa.CallCommon) *ssa.Function {
 	if c.IsInvoke() {
 		return nil
+	}
+	if fn := funcVarTarget(c.Value); fn != nil {
+		return fn
 	}
 	switch v := c.Value.(type) {
 	case *ssa.Function:
@@ -106,7 +114,18 @@ func qualName(f *types.Func) string {
 
 var errorType = types.Universe.Lookup("error").Type()
 
-func isErrorType(t types.Type) bool { return types.Identical(t, errorType) }
+func isErrorType(t types.Type) bool {
+	if types.Identical(t, errorType) {
+		return true
+	}
+	// a concrete error type of the repository used as a result (func f() *updateError): nil means success
+	if pt, ok := t.(*types.Pointer); ok {
+		if n, ok := pt.Elem().(*types.Named); ok && n.Obj().Pkg() != nil && load.InModule(n.Obj().Pkg().Path()) {
+			return types.Implements(pt, errorType.Underlying().(*types.Interface))
+		}
+	}
+	return false
+}
 
 // errResultIndex returns the index of the last result if it is of type error, else -1.
 func errResultIndex(sig *types.Signature) int {
@@ -311,4 +330,24 @@ func stripConv(v ssa.Value) ssa.Value {
 			return v
 		}
 	}
+}
+
+// funcVarTargets: package-level function variables of the repository that are
+// assigned exactly once, by their initialiser, to a named function (the
+// "injectable" form `var writeFile = os.WriteFile`). Nothing in the analysed
+// (non-test) program can change them, so a call through such a variable is a
+// call of that function. Filled by NewCtx.
+var funcVarTargets = map[*ssa.Global]*ssa.Function{}
+
+// funcVarTarget: v is a load of such a variable.
+func funcVarTarget(v ssa.Value) *ssa.Function {
+	ld, ok := v.(*ssa.UnOp)
+	if !ok || ld.Op != token.MUL {
+		return nil
+	}
+	g, ok := ld.X.(*ssa.Global)
+	if !ok {
+		return nil
+	}
+	return funcVarTargets[g]
 }
